@@ -211,6 +211,31 @@ Theorem C06_reply_lost_after_processing_heals :
 Proof. intros priv point pub dh H. exact (reply_lost_after_processing_heals priv point pub dh H false false). Qed.
 Print Assumptions C06_reply_lost_after_processing_heals.
 
+(* keyNextSync's guard: a pending pair is never replaced by another one before it was swapped
+   (keyCheckSync) or cancelled (keyCheckRevert): for EVERY event, admissible or not, both flags *)
+Theorem C06_pending_pair_never_replaced :
+  forall (priv point : Type) (pub : priv -> point) (dh : priv -> point -> list Z) (merge chan_rekey : bool),
+  forall e (s : st priv point) k k',
+  c_next (cl s) = Some k -> c_next (cl (step pub dh merge chan_rekey e s)) = Some k' -> k' = k.
+Proof. exact pending_pair_never_replaced. Qed.
+Print Assumptions C06_pending_pair_never_replaced.
+
+(* ... hence finding (a) heals in the same way when the re-key roll fires again on the very next
+   exchange (keyNextSync refuses, the client swaps to k, the pair the server already uses, not k2) *)
+Theorem C06_reply_lost_heals_when_roll_fires_again :
+  forall (priv point : Type) (pub : priv -> point) (dh : priv -> point -> list Z),
+  (forall a b, dh a (pub b) = dh b (pub a)) ->
+  forall s k k2 q0 q,
+  settled pub s ->
+  let lost := run pub dh false false [RekeySend k; RekeyRecv q0; ReplyLost] s in
+  let s' := run pub dh false false [RekeySend k2; RekeyRecv q; ReplyRecv] lost in
+  let old := c_share (cl s) in
+  let new := fill_shared old (dh k (pub (s_priv (sv s)))) in
+  settled pub s' /\ c_share (cl s') = new /\ s_share (sv s') = new /\ c_priv (cl s') = k /\
+  c_seen s' = deliver (xor_op (xor_op q new) old) (c_seen s) /\ s_seen s' = s_seen s.
+Proof. intros priv point pub dh H. exact (reply_lost_heals_when_roll_fires_again priv point pub dh H false false). Qed.
+Print Assumptions C06_reply_lost_heals_when_roll_fires_again.
+
 (* ---- channels --------------------------------------------------------------------------- *)
 (* pick(): whatever is queued and whatever `i` is, a client inside a channel never reaches
    keyNextSync (the client-channel case returns first); outside a channel the idle tick may draw *)
